@@ -21,6 +21,11 @@
 (*                                                                                              *)
 (* Timing: the driver discards behaviours whose register..lookup segments overran the safety      *)
 (* margin inside the waiting period; a tick is a sleep well beyond the period.                   *)
+(* The value class carries the circumstances of the registration where they matter:              *)
+(*   "...:target=same|other" - where the mapping's target client had its control connection,      *)
+(*   "reregister-race"        - the id was re-registered concurrently with lookups that met the    *)
+(*                              lapsed, unswept record of its previous registration,               *)
+(*   "period=1.5s|2.5s"       - waiting period that is not a whole number of seconds.              *)
 (* detail:  Resolve/<backend>:<what>:<value class>   what = notfound | expired | error |          *)
 (*          wrongnode | fields | addr                                                            *)
 (*          Gone/<backend>:<why>                     why  = never | removed | lapsed |            *)
